@@ -61,7 +61,7 @@ def _recover(draw):
         auto = math.exp(draw(st.floats(0.0, math.log(min(5000.0, cap)))))
     blank = auto > 0 and draw(st.booleans()) and len(lad) < 10
     # callers hand over float arrays, integer arrays (manufacturer values are whole numbers) or lists
-    container = draw(st.sampled_from(['float_array', 'float_array', 'int_array', 'list']))
+    container = draw(st.sampled_from(['float_array', 'float_array', 'int_array', 'list', 'f32_array']))
     if container == 'int_array':
         lad = [float(round(v)) for v in lad]
     return dict(arm='recover', m=m, b=b, auto=auto, mef=([0.0] if blank else []) + lad, container=container)
@@ -69,6 +69,18 @@ def _recover(draw):
 
 @st.composite
 def _structural(draw):
+    if draw(st.booleans()):
+        # a realistic ladder measured with a few percent of noise (no recovery claim: only the structural identities);
+        # noise can make the unconstrained optimum's autofluorescence negative, the reported one never is
+        lad = list(draw(st.sampled_from(LADDERS)))
+        k = draw(st.integers(3, len(lad)))
+        lad = lad[:k] if draw(st.booleans()) else lad[-k:]
+        m, b = draw(st.floats(0.85, 1.25)), draw(st.floats(0, 7))
+        auto = draw(st.sampled_from([0.0, 0.0, 5.0, 300.0]))
+        rfi = [math.exp((math.log(v + auto) - b) / m) * draw(st.floats(0.93, 1.07)) for v in lad]
+        rfi = sorted(rfi)
+        if all(x2 > x1 for x1, x2 in zip(rfi, rfi[1:])):
+            return dict(arm='structural', rfi=rfi, mef=lad)
     k = draw(st.integers(3, 10))
     x = draw(st.floats(0.5, 200))
     y = draw(st.floats(1, 5000))
@@ -144,7 +156,8 @@ def check(case, obs):
         mef_arg = list(mef)
     else:
         mef_arg = np.array(mef)
-    out = call(FlowCal.mef.fit_beads_autofluorescence, list(rfi) if container == 'list' else np.array(rfi), mef_arg)
+    rfi_arg = list(rfi) if container == 'list' else np.array(rfi, dtype=np.float32 if container == 'f32_array' else np.float64)
+    out = call(FlowCal.mef.fit_beads_autofluorescence, rfi_arg, mef_arg)       # (statistics of a float32 sample are float32)
     if not obs.claim('fits', not raised(out), lambda: 'fit raised %r' % (out,)):
         return
     sc_before, grid0 = _structure(out, rfi, obs)
